@@ -255,6 +255,9 @@ impl<'a> Interp<'a> {
             out.push((k.clone(), v.clone()));
             it.next();
         }
+        if let Some(e) = it.take_error() {
+            return Err(format!("iteration stopped with an error: {e:?}"));
+        }
         Ok(out)
     }
 
